@@ -120,6 +120,32 @@ def run_impl(case):
             a[i:j] = a
             got = [x.ticks for x in a]
             out = [x.ticks for x in xs] if got == [x.ticks for x in want] else got + [12345]
+        elif path == "slicefuzz":
+            # slice assignments and deletions of every shape (reversed and empty ranges, negative and large steps, wrong
+            # lengths) done to the array and to a plain list of the same values: same outcome, same records afterwards
+            import random as _random
+            r2 = _random.Random(case.get("fz", 0))
+            a, ref = A(xs), list(xs)
+            ok = True
+            for _ in range(4):
+                n = len(ref)
+                lo, hi = r2.choice([None, 0, 1, n, n + 2, -1, -n - 1, r2.randrange(-n - 1, n + 2)]), r2.choice([None, 0, 1, n, n + 2, -1, -n - 1, r2.randrange(-n - 1, n + 2)])
+                st = r2.choice([None, None, 1, 1, -1, 2, -2, 3])
+                sl = slice(lo, hi, st)
+                m = r2.choice([0, 1, 2, len(range(*sl.indices(n))), len(range(*sl.indices(n)))])
+                new = [X.from_ticks(7000 + r2.randrange(100)) for _ in range(m)]
+                outcome = []
+                for tgt in (a, ref):
+                    try:
+                        if r2.random() < 0 or case.get("fz", 0) % 5 == 4:
+                            del tgt[sl]
+                        else:
+                            tgt[sl] = list(new)
+                        outcome.append("ok")
+                    except (ValueError, TypeError, IndexError) as e:
+                        outcome.append(type(e).__name__)
+                ok = ok and outcome[0] == outcome[1] and [x.ticks for x in a] == [x.ticks for x in ref]
+            out = [x.ticks for x in xs] if ok else [x.ticks for x in a] + [12345]
         elif path == "insert":
             a = A()
             for i, x in enumerate(xs):
@@ -273,7 +299,7 @@ def gen_cases(rng, tier):
         cases.append({"k": "from_tuple", "dt": False, "w": w, "f": 0, "ctor": True, "np": rng.choice([None, "w", "w", "w32"])})
     # arrays
     inr = battery(False)
-    paths = ["iter", "index", "negindex", "slice", "setitem", "setslice", "setslice_self", "setslice_self", "insert", "extend", "append", "pickle", "deepcopy", "pickle_write", "deepcopy_write", "copy_write",
+    paths = ["iter", "index", "negindex", "slice", "setitem", "setslice", "setslice_self", "setslice_self", "slicefuzz", "slicefuzz", "slicefuzz", "insert", "extend", "append", "pickle", "deepcopy", "pickle_write", "deepcopy_write", "copy_write",
              "ctor_from_array_write_copy", "ctor_from_array_write_orig", "ctor_from_iter_write"]
     for _ in range(250 if tier == "quick" else 6000):
         n = rng.choice([0, 1, 1, 2, 3, 5, 8])
@@ -281,7 +307,7 @@ def gen_cases(rng, tier):
         dt = rng.random() < 0.5
         cases.append({"k": "array_bytes", "dt": dt, "l": l})
         cases.append({"k": "array_items", "dt": dt, "l": l, "path": rng.choice(paths), "proto": rng.choice([2, 3, 4, 5]),
-                      "i": rng.randrange(0, 9), "sw": rng.choice([0, 1, 1, 2])})
+                      "i": rng.randrange(0, 9), "sw": rng.choice([0, 1, 1, 2]), "fz": rng.randrange(10**6)})
     # integers too long for Python to print (more than 4300 digits): out of range like any other, OverflowError.
     # The value is built inside run_impl and written as a Coq expression, so that no decimal string of it is ever made here.
     for neg in (False, True):
